@@ -48,7 +48,8 @@ def Val.isNil : Val → Bool
 
 def Val.tok : Val → String
 | .atom a => a.tok
-| .pack es => "[" ++ joinWith "," (es.map (·.tok)) ++ "]"
+| .pack es => "[" ++ joinWith "," (es.map (·.tok)) ++ "]" ++ (if es.isEmpty then "nil" else "#" ++ toString es.length)
+  -- what the callee can tell about the slice header: nil for a call without variadic arguments, else len = cap
 
 def Val.num : Val → Int
 | .atom a => a.n
@@ -154,7 +155,7 @@ def reflectCallSlice {β : Type} (s : Sig) (f : List Val → β) (fail : String 
 
 /-! ## mocker state -/
 
-inductive CbKind | sum | pan | nilp | echo | retn
+inductive CbKind | sum | pan | nilp | echo | retn | org
 deriving DecidableEq, Repr
 
 /-- a user callback of the probe: `name` is what it records, `k` its constant -/
@@ -220,6 +221,7 @@ structure WS where
   matchers : List Matcher := []
   when : Option When := none     -- baseMocker.when
   events : List String := []     -- what the callbacks / original recorded during the current call
+  wrote : Bool := false          -- a callback stored into element 0 of the variadic slice it was handed during the current call
 deriving DecidableEq, Repr
 
 inductive MKind | patch | iface
@@ -280,9 +282,17 @@ def nilIface : Val := .atom { kind := .iface, isNil := true, tok := "nil" }
 def intVal (z : Int) : Val := .atom { kind := .int, isNil := false, tok := toString z, n := z }
 
 /-- the probe's callbacks (harness/c19/probe_test.go `callback`) -/
+def lastNonemptyPack : List Val → Bool
+| [] => false
+| [.pack es] => !es.isEmpty
+| [.atom _] => false
+| _ :: r => lastNonemptyPack r
+
 def runCb (env : Env) (cb : Cb) (args : List Val) (wrapped : Bool) (s : St) : Out × St :=
   let a := shown env args
-  let s := { s with ws := { s.ws with events := s.ws.events ++ ["cb" ++ cb.name ++ "(" ++ toks a ++ ")"] },
+  let s := { s with ws := { s.ws with events := s.ws.events ++ ["cb" ++ cb.name ++ "(" ++ toks a ++ ")"],
+                                      -- the `sum` callbacks finish with `xs[0] += 1000` on their variadic parameter
+                                      wrote := s.ws.wrote || (cb.kind == .sum && lastNonemptyPack a) },
                     wraps := s.wraps ++ [wrapped] }
   match cb.kind with
   | .sum => (.ret [intVal (cb.k + sumV a)], s)
@@ -290,6 +300,7 @@ def runCb (env : Env) (cb : Cb) (args : List Val) (wrapped : Bool) (s : St) : Ou
   | .nilp => (.pan "nilderef", s)
   | .echo => (.ret a, s)
   | .retn => (.ret [nilPtr, nilIface], s)
+  | .org => (.ret [intVal (cb.k + sumV (env.orig a))], s)   -- calls the Origin placeholder (the relocated original) and adds k
 
 /-- matcher.go:116 DefaultMatcher.Match.  For variadic functions every argument is expanded (`rv.Len()`,
     matcher.go:123): a non-slice argument makes `reflect` panic — the generators never build that case
@@ -593,10 +604,12 @@ def cfgStep (env : Env) (ws : WS) : Op → WS × Option (Fn × Option PF) × Str
         | none, _ => (r.2, some (whenReq env), "ok")
   | _ => (ws, none, "bad-op")
 
-def outTok (s : St) (o : Out) : String :=
+def outTok (s : St) (o : Out) (args : List Val) : String :=
   let ev := String.join s.ws.events
   match o with
-  | .ret vs => ev ++ "->r:" ++ toks vs
+  | .ret vs =>
+    -- after a spread call `f(xs...)` the caller looks at its own xs[0]: did a callee's store reach it?
+    ev ++ "->r:" ++ toks vs ++ (if lastNonemptyPack args then (if s.ws.wrote then "~a1" else "~a0") else "")
   | .pan c => ev ++ "->p:" ++ c
   | .crash => ev ++ "->CRASH"
 
@@ -615,9 +628,9 @@ def step (env : Env) (s : St) (op : Op) : St × String :=
   | .call args =>
     if !env.sig.accepts args then (s, "bad-op")     -- not a call Go's type checker lets through
     else
-      let s0 := { s with ws := { s.ws with events := [] } }
+      let s0 := { s with ws := { s.ws with events := [], wrote := false } }
       let r := callTarget env args s0
-      (r.2, outTok r.2 r.1)
+      (r.2, outTok r.2 r.1 args)
   | .cancel =>
     -- builder.go:207 Reset → Cancel (mocker.go:156); the next use of the builder creates fresh mockers
     ({ s with ws := {}, inst := none }, "ok")
